@@ -80,6 +80,10 @@ def steady_zoo():
     Z.append(SModel("lag_only", ("y", "x", "w"),
                     ("y = a*x[-1]^2 + b + 0*e", "x = 0.5*x[-1] + 1", "w = 0.5*w[-1] + y[+1]*x"),
                     dict(a=0.75, b=0.5), dict(y=1.0, x=1.0, w=1.0), True, shocks=("e",)))
+    # a simultaneous core followed by a CHAIN of definitions (each peeled off last at a different depth): the chain must be solved in dependency order
+    Z.append(SModel("chain_last", ("x1", "x2", "y", "z", "w"),
+                    ("x1 = a + 0.5*x2 + 0*e", "x2 = b + 0.25*x1 + 0.1*x1[-1]", "y = 2*x1 + 0.5*y[-1]", "z = 3*y + 1", "w = z*z + y"),
+                    dict(a=1.0, b=0.5), dict(x1=1.0, x2=1.0, y=1.0, z=4.0, w=2.0), True, shocks=("e",)))
     Z.append(SModel("ur_drift", ("l", "g"),
                     ("l = l[-1] + g + e", "g = 0.5*g[-1] + 0.1"),
                     dict(), dict(l=1.0, g=0.1), False, shocks=("e",), fix_level=("l",), assign_extra={"l": (1.0, 0.2)}))
